@@ -15,7 +15,12 @@ func init() { core.Register("C10", core.Scenario{Run: Run, Replay: Replay}) }
 const rule = "stream scripts over raw HTTP/2 frames (20-400 ops, 1-6 concurrent streams, both directions) through h2.Config.Proxy: header blocks of " +
 	"0-40 KiB split by the sender at random points (HEADERS + CONTINUATION, also empty fragments), priorities, padding, bodies, trailers, empty END_STREAM " +
 	"DATA, RST_STREAM, PRIORITY, PUSH_PROMISE, HEADER_TABLE_SIZE changes, PING/GOAWAY/SETTINGS/ACK; receivers decode with their own hpack.Decoder; window " +
-	"grants arrive late and in small steps; an epilogue opens every window and everything must have arrived by its barrier. A case is non-trivial when at " +
+	"grants arrive late and in small steps; an epilogue opens every window and everything must have arrived by its barrier. Beside them, in child processes " +
+	"of their own: a concurrent family (bursts without barriers, every window open: a header block of 32-512 KiB - HEADERS, trailers, PUSH_PROMISE - followed by " +
+	"PING / SETTINGS / ACK / GOAWAY of the same endpoint while the other endpoint writes DATA, PINGs or a large block of its own, started by the arrival of the " +
+	"block's first frame; the order of ARRIVAL is judged for RFC 7540 6.10) and an end-to-end family (the relay behind martian.Proxy: CONNECT, interception, " +
+	"TLS with ALPN h2; IdleTimeout / ReadTimeout / ReadHeaderTimeout / WriteTimeout unset or 300-500 ms, with and without MITMTLSHandshakeTimeout; the " +
+	"connection is kept silent or busy for 3-5 times the largest and then used again). A case is non-trivial when at " +
 	"least one frame was held by the relay and released later; distinct = distinct observed traces"
 
 func Run(ctx *core.Ctx) {
